@@ -70,25 +70,28 @@ impl<'a> Autocompletion<'a> {
 
         // compare new autocompletion to existing and keep
         // only common prefix
-        let len = match self.autocompleted() {
+        let mut len = match self.autocompleted() {
             Some(current) => utils::common_prefix_len(autocompletion, current),
             None => autocompletion.len(),
         };
 
         if len > self.buffer.len() {
-            // if buffer is full with this autocompletion, there is not much sense in doing it
-            // since user will not be able to type anything else
-            // so just do nothing with it
-        } else {
-            self.partial =
-                self.partial || len < autocompletion.len() || self.autocompleted.is_some();
-            // SAFETY: we checked that len is no longer than buffer len (and is at most autocompleted len)
-            // and these two buffers do not overlap since mutable reference to buffer is exclusive
-            unsafe {
-                utils::copy_nonoverlapping(autocompletion.as_bytes(), self.buffer, len);
+            // autocompletion doesn't fit in the buffer, so keep only chars that fit.
+            // It still must be merged (and marked as partial), otherwise other variants
+            // would be treated as the only possible autocompletion
+            len = self.buffer.len();
+            while !autocompletion.is_char_boundary(len) {
+                len -= 1;
             }
-            self.autocompleted = Some(len);
-        };
+        }
+
+        self.partial = self.partial || len < autocompletion.len() || self.autocompleted.is_some();
+        // SAFETY: we checked that len is no longer than buffer len (and is at most autocompleted len)
+        // and these two buffers do not overlap since mutable reference to buffer is exclusive
+        unsafe {
+            utils::copy_nonoverlapping(autocompletion.as_bytes(), self.buffer, len);
+        }
+        self.autocompleted = Some(len);
     }
 }
 
